@@ -13,6 +13,7 @@ Tie: harness/ph_speciate.cpp dumps the engine's speciation state at every punch 
 import concurrent.futures
 import json
 import math
+import os
 import re
 import struct
 import time
@@ -39,7 +40,9 @@ MANIFEST = dict(
           "Obligations over generated data: per dumped state the database mass-action residual of every species <= 1e-9, stored moles = "
           "under(lm)*water, element and valence-state totals / charge balance / ionic strength / alkalinity at 1e-7, SI/SR/LK_PHASE/"
           "LK_SPECIES/LK_NAMED/LA/LM/LG/MOL/ACT/GAMMA/TOT and the GetSelectedOutputValue cells. Correspondence: rewritten stoichiometry, "
-          "log K vectors, lk(T), lm (molalities() re-applied), electron equations of redox couples (derived by the model, tied to pe_x), "
+          "log K vectors and lk(T) (sums of coef x database vector that may cancel: tie tolerance 1e-11 resp. 1e-12 relative to the SCALE "
+          "of what is summed - largest entry of that kind in the effective database x size of the combination - never to the net value; "
+          "the 1e-9 oracle on lk is unchanged), lm (molalities() re-applied), electron equations of redox couples (derived by the model, tied to pe_x), "
           "gate verdict, k_calc on random vectors, dbparse vs the engine's tables (species, phases, resolved named-expression chains) for "
           "shipped and generated databases."),
     note=("Trusted: Lean kernel, tools/dbparse.py and tools/gen_speciation.py (regex extraction, fails closed: recognised=false breaks "
@@ -336,13 +339,20 @@ def close(a, b, rel, floor=0.0):
     return abs(a - b) <= rel * max(abs(a), abs(b)) + floor
 
 
-def judge(d, mc, stats, mb={}, phase_adds=frozenset(), e_species=None):
+def judge(d, mc, stats, mb={}, phase_adds=frozenset(), e_species=None, kmax=None):
     """returns (oracle_failures, tie_failures); each a list of (kind, name, detail)"""
     orc, tie = [], []
     W = d["W"]
     one_atm = d["patm"] <= 1.0
     alt_pe = any(m["in"] == 2 and m["pe"].lower() != "pe" for m in d["m"]) or d.get("default_pe", "pe").lower() != "pe"
     in_use = {m["s"] for m in d["m"] if m["in"] == 1 and m["elt"] != "Alkalinity"}
+    # scale of what is summed into a log K vector: the rewritten vector is Σ coef·(vector of a database entry); its entries can
+    # cancel to ~0, so ties on such sums are judged relative to the largest entry of that kind in the (effective) database
+    # (kmax, includes resolved named expressions times the largest -add_logk coefficient) times the size of the combination,
+    # never relative to the net value
+    kmax = list(kmax) if kmax else [0.0] * 8
+    T_ = d["tk"]
+    tfac = [1.0, 1.0, 1.0, T_, 1.0 / T_, 3.0, 1.0 / T_ ** 2, T_ ** 2]
     smap = {s["name"]: s for s in d["s"]}
     # molalities() re-applied by the harness to the accepted state: lm2. "stale" = the stored lm is not what the
     # assignment gives for the final activities and activity coefficients
@@ -396,7 +406,8 @@ def judge(d, mc, stats, mb={}, phase_adds=frozenset(), e_species=None):
             mod[nm] = mod.get(nm, 0.0) + c
         if set(code) != set(mod) or any(abs(code[x] - mod[x]) > 1e-9 * max(1, abs(code[x])) for x in code):
             tie.append(("couple", name, f"electron equation: engine {code}, model {mod}"))
-        elif any(abs(a - b) > 1e-11 * max(abs(a), abs(b), 1e-3) * 4 for a, b in zip(k[:8], mp[1][:8])):
+        elif any(abs(a - b) > 1e-11 * max(abs(a), abs(b), km, 1e-3) * (4 + sum(abs(c) for c in code.values()))
+                 for a, b, km in zip(k[:8], mp[1][:8], kmax)):
             tie.append(("couple", name, f"log K vector: engine {k[:8]}, model {mp[1][:8]}"))
     for s in d["s"]:
         n = s["name"]
@@ -424,20 +435,21 @@ def judge(d, mc, stats, mb={}, phase_adds=frozenset(), e_species=None):
             stats["rx"] += 1
             if len(code) > 1 or (len(code) == 1 and n not in code):
                 stats["rx_nontrivial"] += 1
+            comb = 1 + len(code) + sum(abs(c) for c in code.values())
             for i in range(8):
-                scale = max(abs(s["k"][i]), abs(k[i]), 1e-3)
-                if abs(s["k"][i] - k[i]) > 1e-11 * scale * (1 + len(code)):
+                scale = max(abs(s["k"][i]), abs(k[i]), kmax[i], 1e-3)
+                if abs(s["k"][i] - k[i]) > 1e-11 * scale * comb:
                     tie.append(("kvec", n, f"logk[{i}]: engine {s['k'][i]!r}, model {k[i]!r}"))
                     break
             lkx, lkdb = mc["lk"][n]
             if one_atm:
-                mag = sum(abs(x) for x in k[:2]) + abs(k[2]) + abs(k[3]) * d["tk"] + abs(k[4]) / d["tk"] + abs(k[5]) * 3 + abs(k[6]) / d["tk"] ** 2 + abs(k[7]) * d["tk"] ** 2
+                mag = sum(max(abs(k[j]), abs(s["k"][j]), kmax[j]) * tfac[j] for j in range(8)) * comb
                 if abs(lkx - s["lk"]) > 1e-12 * (1 + mag) + 1e-13:
                     tie.append(("lk", n, f"lk(T): engine {s['lk']!r}, model {lkx!r} at T={d['tk']}"))
                 if abs(lkx - s["lk"]) > TOL_LOG:
                     orc.append(("lk", n, f"log K at {d['tk']} K: engine {s['lk']!r}, database text gives {lkx!r}"))
                 rk = d["rk"].get(n)
-                if rk is not None and abs(rk - lkdb) > 1e-12 * (1 + abs(lkdb)) * 100 + 1e-12:
+                if rk is not None and abs(rk - lkdb) > 1e-12 * (1 + abs(lkdb) + sum(kmax[j] * tfac[j] for j in range(8))) * 100 + 1e-12:
                     (orc if abs(rk - lkdb) > TOL_LOG else tie).append(("lk_species", n, f"LK_SPECIES {rk!r}, database text {lkdb!r}"))
                 lm = mc["lm"][n]
                 if abs(lm - fresh.get(n, s["lm"])) > TOL_LOG:
@@ -814,9 +826,20 @@ def check_runs(ctx, exe, dbname, db, dblines, texts, stats, resets=()):
     mlines = list(dblines)
 
     def aux(dbo):
+        km = [0.0] * 8
+        cmax = 1.0
+        for o in list(dbo.species.values()) + list(dbo.phases.values()):
+            for j, v in enumerate(o.logk.vector()):
+                km[j] = max(km[j], abs(v))
+            for _nm, c in o.add_logk:
+                cmax = max(cmax, abs(c))
+        for v in resolve_named(dbo).values():
+            if v:
+                for j in range(8):
+                    km[j] = max(km[j], abs(v[j]) * cmax)
         return ({n: set(sp.elements) for n, sp in dbo.species.items() if sp.mole_balance},
                 frozenset(n for n, ph in dbo.phases.items() if ph.add_logk),
-                frozenset(n for n, sp in dbo.species.items() if any(t == "e-" for t, _ in sp.rxn)))
+                frozenset(n for n, sp in dbo.species.items() if any(t == "e-" for t, _ in sp.rxn)), km)
     base_aux = aux(db)
     cur_aux, cur_defs, emitted_defs, poisoned = base_aux, "", "", False
     base_text = None
@@ -869,13 +892,13 @@ def check_runs(ctx, exe, dbname, db, dblines, texts, stats, resets=()):
         return findings, runs
     out = pmodel(ctx, "\n".join(mlines) + "\n")
     cases = parse_model(out)
-    for i, d, cid, (mb, phase_adds, e_species) in index:
+    for i, d, cid, (mb, phase_adds, e_species, kmax) in index:
         mc = cases.get(cid)
         stats["dumps"] += 1
         if mc is None or "gate" not in mc:
             findings.append((i, d["idx"], [], [("driver", "no-output", cid)], [], []))
             continue
-        orc, tie = judge(d, mc, stats, mb, phase_adds, e_species)
+        orc, tie = judge(d, mc, stats, mb, phase_adds, e_species, kmax)
         extra = []
         if d.get("iso_finding"):
             extra.append((ISO_KEY, "ISOTOPES database: add_isotopes() replaces total H / total O by the major-isotope moles before "
@@ -1166,7 +1189,7 @@ def _run(ctx, ok, exe):
     synth_cov = {}
     for k in range(6 if thorough else 2):
         text, smeta = gens.gen_synth_db(ctx.rng, base, base_db)
-        path = sdir / f"synth_{ctx.seed}_{k}.dat"
+        path = sdir / f"synth_{ctx.tier}_{ctx.seed}_{k}_{os.getpid()}.dat"
         path.write_text(text, encoding="latin-1")
         for f in smeta["features"]:
             synth_cov[f] = synth_cov.get(f, 0) + 1
@@ -1194,6 +1217,8 @@ def _run(ctx, ok, exe):
                              "errors": stats["runs_error"] - before["runs_error"], "species_checked": stats["res"] - before["res"],
                              "synthetic_species_checked": len(stats["seen"] & set(focus)), "synthetic_species": len(focus)}
         ctx.log(path.name, per_db[path.name])
+    for f in sdir.glob(f"synth_{ctx.tier}_{ctx.seed}_*_{os.getpid()}.dat"):
+        f.unlink()
     cov["synthetic_db_features"] = synth_cov
     stats["oracle_failures"] = tot_or
     if ctx.tie_breaks and not ctx.violations:
